@@ -90,6 +90,15 @@ func waveStops(c *rig.Ctx) {
 			if !check("after powering on again") {
 				return
 			}
+			// a fresh trigger of the stopped channel (nothing is playing: nothing may be
+			// rewritten), stopped again at once
+			w(0xff1a, 0x80)
+			w(0xff1d, uint8(f))
+			w(0xff1e, 0x80|uint8(f>>8)&7)
+			w(0xff1a, 0x00)
+			if !check("after a fresh trigger and DAC-off") {
+				return
+			}
 			c.Count("wave_stop_cases", 1)
 			c.Exact(1)
 		}
